@@ -880,7 +880,8 @@ def _formatter_tag_method(cad, fm, path):
     """'kv' / 'v' if `path` is a formatter method whose effect is one push of (Some(..), ..) / (None, ..) to the tag list"""
     if path is None:
         return None
-    key = (id(cad), path)
+    _FTM = cad.__dict__.setdefault('_ftm_memo', {})
+    key = path
     if key in _FTM:
         return _FTM[key]
     r = None
